@@ -9,6 +9,8 @@
  * "ok" (exit 0).  One line is appended to LOGFILE per invocation.
  * "sleepif=TOKEN:MS" delays the answer by MS milliseconds when TOKEN is
  * PRESENT in the file (a slow golden run without slow candidates).
+ * "killaccept=1": the accepting behaviour is to die from SIGKILL (an
+ * out-of-memory kill, a watchdog): exit status -9, no output.
  */
 #include <fcntl.h>
 #include <signal.h>
@@ -53,12 +55,14 @@ int main(int argc, char **argv) {
   if (fread(text, 1, sz, f) != (size_t)sz) return 66;
   text[sz] = 0; fclose(f);
   int keep_ok = 1;
+  int killaccept = 0;
   const char *fault = NULL;
   char *save1;
   for (char *part = strtok_r(spec, ";", &save1); part; part = strtok_r(NULL, ";", &save1)) {
     char *eq = strchr(part, '=');
     if (!eq) continue;
     *eq = 0;
+    if (strcmp(part, "killaccept") == 0) { killaccept = 1; continue; }
     if (strcmp(part, "sleepif") == 0) {
       char *colon = strchr(eq + 1, ':');
       if (colon) {
@@ -109,6 +113,7 @@ int main(int argc, char **argv) {
   } else {
     logline(logf, keep_ok ? "accept" : "reject");
   }
+  if (keep_ok && killaccept) { raise(SIGKILL); sleep(5); }
   if (keep_ok) { printf("bug\n"); fflush(stdout); return 1; }
   printf("ok\n"); fflush(stdout); return 0;
 }
